@@ -7,14 +7,12 @@ use rapid_time::{DateTime, Duration};
 use solution::tour::Tour;
 use solution::transition::Transition;
 use solution::Schedule;
-use std::cell::RefCell;
 use std::fmt::Write;
 use std::panic::{catch_unwind, AssertUnwindSafe};
 use std::sync::Arc;
 
-thread_local! {
-    static LAST_PANIC: RefCell<String> = RefCell::new(String::new());
-}
+// process-wide (panics may happen on rayon worker threads); the first site after a reset wins
+static LAST_PANIC: std::sync::Mutex<String> = std::sync::Mutex::new(String::new());
 
 pub fn install_panic_hook() {
     std::panic::set_hook(Box::new(|info| {
@@ -26,15 +24,22 @@ pub fn install_panic_hook() {
                 format!("{}:{}", f.replace(' ', "_"), l.line())
             })
             .unwrap_or_else(|| "unknown".to_string());
-        LAST_PANIC.with(|p| *p.borrow_mut() = loc);
+        let mut p = LAST_PANIC.lock().unwrap_or_else(|e| e.into_inner());
+        if p.is_empty() {
+            *p = loc;
+        }
     }));
 }
 
 /// run `f`, turning a panic into `Err(site)`
 pub fn guarded<T>(f: impl FnOnce() -> T) -> Result<T, String> {
+    LAST_PANIC.lock().unwrap_or_else(|e| e.into_inner()).clear();
     match catch_unwind(AssertUnwindSafe(f)) {
         Ok(v) => Ok(v),
-        Err(_) => Err(LAST_PANIC.with(|p| p.borrow().clone())),
+        Err(_) => {
+            let site = LAST_PANIC.lock().unwrap_or_else(|e| e.into_inner()).clone();
+            Err(if site.is_empty() { "unknown".to_string() } else { site })
+        }
     }
 }
 
@@ -98,6 +103,11 @@ impl Ctx {
         let nw = guarded(|| {
             model::json_serialisation::load_rolling_stock_problem_instance_from_json(json)
         })?;
+        Ok(Ctx::from_network(inst, nw))
+    }
+
+    /// wraps an already loaded network (e.g. the one a returned schedule refers to)
+    pub fn from_network(mut inst: Inst, nw: Arc<Network>) -> Ctx {
         let mut nodes: Vec<NodeIdx> = nw.all_nodes().collect();
         nodes.sort_by_key(|n| n.idx());
         for (k, n) in nodes.iter().enumerate() {
@@ -114,7 +124,7 @@ impl Ctx {
             }
             inst.default_order = order;
         }
-        Ok(Ctx { inst, nw, nodes })
+        Ctx { inst, nw, nodes }
     }
 
     pub fn n(&self, idx: usize) -> NodeIdx {
